@@ -429,6 +429,37 @@ class Verifier:
             I.tracked = [("self", selfv)] + tracked
         self.check_exit(I, c, fr, run, sframe, result, exc)
 
+    def shape_fields(self, cls):
+        out = []
+        for cn in ([cls] if cls else []):
+            for f in self.reg.shapes.get(cn, {}):
+                if not f.startswith("ghost") and f not in out:
+                    out.append(f)
+        return out
+
+    def class_level_name(self, I, cls, name):
+        """a class attribute, method, property or dataclass field default: readable on an instance without __init__ having set it"""
+        ci = self.repo.find_class(cls)
+        seen = set()
+        while ci is not None and ci.name not in seen:
+            seen.add(ci.name)
+            for st in ci.node.body:
+                if isinstance(st, (ast.FunctionDef, ast.AsyncFunctionDef)) and st.name == name:
+                    return True
+                if isinstance(st, ast.Assign) and any(isinstance(t, ast.Name) and t.id == name for t in st.targets):
+                    return True
+                if isinstance(st, ast.AnnAssign) and isinstance(st.target, ast.Name) and st.target.id == name and st.value is not None:
+                    return True
+            nxt = None
+            for b in ci.node.bases:
+                bn = b.id if isinstance(b, ast.Name) else (b.attr if isinstance(b, ast.Attribute) else None)
+                if bn:
+                    nxt = self.repo.find_class(bn, ci.mod.relpath)
+                    if nxt is not None:
+                        break
+            ci = nxt
+        return False
+
     def class_clauses(self, table, cls):
         out = []
         seen = set()
@@ -602,6 +633,14 @@ class Verifier:
                 ctx.oblige(I, "raises", "none" if not c.raises else "only-" + "|".join(c.raises), z3.BoolVal(True), "", text=f"raises: {c.raises}")
             for lbl, ex in c.ensures.items():
                 self.oblige_clause(I, ctx, "post", lbl, ex, sframe, extra, fr)
+            if c.is_init:
+                # the constructor establishes the shape every other contract of the class assumes: each declared field is bound on return
+                sv = dict(I.tracked).get("self")
+                rec = run.rec(sv.oid) if sv is not None else None
+                for fld in self.shape_fields(rec.cls if rec else None):
+                    bound = fld in rec.fields or self.class_level_name(I, rec.cls, fld)
+                    ctx.oblige(I, "init-binds", fld, z3.BoolVal(bool(bound)), "" if bound else f"self.{fld} is not bound when __init__ returns",
+                               text=f"hasattr(self, {fld!r})")
         else:
             fr.exits["raise"] += 1
             cls = exc.exc.cls + ("*" if exc.exc.arbitrary else "")
